@@ -2,10 +2,13 @@ package rules
 
 import (
 	"go/ast"
+	"go/types"
 	"sort"
 	"strings"
 
 	"golang.org/x/tools/go/ssa"
+
+	"golang.org/x/tools/go/packages"
 
 	"jsverif/internal/core"
 )
@@ -136,18 +139,20 @@ func c04collect(c *core.Ctx) {
 		c.Unresolved(R, "notations/jschema/ischema.collectASTRules")
 		return
 	}
-	// the callback handed to Each
-	var lit *ast.FuncLit
+	// the callback handed to Each: a function literal, a method value or a function name
+	var litBody *ast.BlockStmt
+	var litType *ast.FuncType
 	ast.Inspect(d.Decl.Body, func(n ast.Node) bool {
-		if call, ok := n.(*ast.CallExpr); ok && strings.HasSuffix(core.ExprStr(call.Fun), ".Each") && len(call.Args) == 1 && lit == nil {
-			lit, _ = call.Args[0].(*ast.FuncLit)
+		if call, ok := n.(*ast.CallExpr); ok && strings.HasSuffix(core.ExprStr(call.Fun), ".Each") && len(call.Args) == 1 && litBody == nil {
+			litBody, litType = funcArgDecl(c, d.Pkg, call.Args[0])
 		}
 		return true
 	})
-	if lit == nil || len(lit.Type.Params.List) == 0 {
-		c.Bad(R, "callback", c.P.Pos(d.Decl.Pos()), "collectASTRules callback", "undecided: no function literal handed to Each")
+	if litBody == nil || len(litType.Params.List) == 0 {
+		c.Bad(R, "callback", c.P.Pos(d.Decl.Pos()), "collectASTRules callback", "undecided: no function literal, method value or function of the package handed to Each")
 		return
 	}
+	lit := &ast.FuncLit{Type: litType, Body: litBody}
 	var pnames []string
 	for _, f := range lit.Type.Params.List {
 		for _, n := range f.Names {
@@ -155,7 +160,7 @@ func c04collect(c *core.Ctx) {
 		}
 	}
 	if len(pnames) != 2 {
-		c.Bad(R, "callback", c.P.Pos(lit.Pos()), "collectASTRules callback", "undecided: the callback does not take (kind, constraint)")
+		c.Bad(R, "callback", c.P.Pos(lit.Body.Pos()), "collectASTRules callback", "undecided: the callback does not take (kind, constraint)")
 		return
 	}
 	kvar, vvar := pnames[0], pnames[1]
@@ -341,4 +346,26 @@ func underOnceOf(c *core.Ctx, oc map[*ssa.Function]string, f *ssa.Function, pare
 		}
 	}
 	return n > 0
+}
+
+// funcArgDecl resolves a function-typed argument to the code that runs: a function literal, or a
+// method value / function name of a package in scope.
+func funcArgDecl(c *core.Ctx, pk *packages.Package, arg ast.Expr) (*ast.BlockStmt, *ast.FuncType) {
+	switch x := ast.Unparen(arg).(type) {
+	case *ast.FuncLit:
+		return x.Body, x.Type
+	case *ast.SelectorExpr, *ast.Ident:
+		var id *ast.Ident
+		if se, ok := x.(*ast.SelectorExpr); ok {
+			id = se.Sel
+		} else {
+			id = x.(*ast.Ident)
+		}
+		if o, ok := pk.TypesInfo.Uses[id].(*types.Func); ok {
+			if hd := c.P.FindDecl(core.Rel(o.FullName())); hd != nil && hd.Decl.Body != nil {
+				return hd.Decl.Body, hd.Decl.Type
+			}
+		}
+	}
+	return nil, nil
 }
